@@ -160,8 +160,19 @@ func AnalyseList(list ssa.Value) *ListBuild {
 		lb.Problems = append(lb.Problems, fmt.Sprintf("list built by %T", list))
 	}
 	if lb.Make == nil {
-		lb.Problems = append(lb.Problems, "no make([][]byte, ...) found")
+		lb.Problems = append(lb.Problems, "no make(...) of the list found")
 	}
+	// the same append can feed the loop phi through several back edges
+	var uniq []ListElem
+	seen := map[[2]any]bool{}
+	for _, e := range lb.Elems {
+		k := [2]any{e.At, e.Val}
+		if !seen[k] {
+			seen[k] = true
+			uniq = append(uniq, e)
+		}
+	}
+	lb.Elems = uniq
 	return lb
 }
 
@@ -169,6 +180,12 @@ func AnalyseList(list ssa.Value) *ListBuild {
 // the only edge leaving the loop is the false edge of `idx < len(xs)` in the loop header, and `at` is executed in every
 // iteration (it dominates every back edge).
 func FullRange(at ssa.Instruction, sx *Symx, xs string) (bool, string) {
+	return FullRangeFor(at, sx, xs, nil)
+}
+
+// FullRangeFor is FullRange where leaving the loop early is tolerated on paths that cannot reach `use` (the place
+// where the list is consumed), e.g. an error return from inside the loop.
+func FullRangeFor(at ssa.Instruction, sx *Symx, xs string, use ssa.Instruction) (bool, string) {
 	loop := loopBlocks(at.Block())
 	if loop == nil {
 		return false, "not in a loop"
@@ -194,6 +211,11 @@ func FullRange(at ssa.Instruction, sx *Symx, xs string) (bool, string) {
 				continue
 			}
 			iff, ok := b.Instrs[len(b.Instrs)-1].(*ssa.If)
+			if use != nil && (b != header || si != 1) {
+				if (&Walk{NoEnv: true, Target: func(x ssa.Instruction) bool { return x == use }}).From(Point{B: s, I: 0}, nil) == nil {
+					continue // this way out never reaches the consumer of the list
+				}
+			}
 			if b != header || !ok || si != 1 || sx.Of(iff.Cond).String() != want {
 				return false, fmt.Sprintf("the loop is left at block %d other than by exhausting %s", b.Index, xs)
 			}
